@@ -332,8 +332,33 @@ impl<'tcx> Extract<'tcx> {
                     mir::Const::Unevaluated(u, _) => {
                         v.push(("sym", s(self.path_args(u.def, u.args))));
                         v.push(("symdef", s(self.path(u.def))));
-                        if u.promoted.is_some() {
+                        if let Some(pidx) = u.promoted {
                             v.push(("promoted", J::Bool(true)));
+                            // a promoted `&<scalar literal>`: recover the literal from the promoted body
+                            if let Some(ld) = u.def.as_local() {
+                                let bodies = tcx.promoted_mir(ld.to_def_id());
+                                if let Some(pb) = bodies.get(pidx) {
+                                    let mut vals: Vec<i128> = Vec::new();
+                                    for bb in pb.basic_blocks.iter() {
+                                        for st in &bb.statements {
+                                            if let StatementKind::Assign(b) = &st.kind {
+                                                if let Rvalue::Use(Operand::Constant(pc), ..) = &b.1 {
+                                                    let pty = pc.const_.ty();
+                                                    if matches!(pty.kind(), ty::Bool | ty::Int(_) | ty::Uint(_)) {
+                                                        let penv = TypingEnv::post_analysis(tcx, u.def);
+                                                        if let Some(si) = pc.const_.try_eval_scalar_int(tcx, penv) {
+                                                            vals.push(si.to_bits_unchecked() as i128);
+                                                        }
+                                                    }
+                                                }
+                                            }
+                                        }
+                                    }
+                                    if vals.len() == 1 {
+                                        v.push(("pv", J::Num(vals[0])));
+                                    }
+                                }
+                            }
                         }
                     }
                     mir::Const::Ty(_, ct) => {
